@@ -405,8 +405,12 @@ CLAIMED = {
         "operator is symmetric positive semi-definite on PEC fields (energy_nonneg) and every block "
         "relaxation is an A-orthogonal projection of the error (relaxBlock_energy), so no call of "
         "solver.smoothing - any line-relaxation code, any number of sweeps, any grid - increases "
-        "the energy norm of the error (smoothing_energy_le; observed on the jitted kernels by the "
-        "suite `energy`). NOT proved, only MEASURED (obligation kind 'measured'; no theorem "
+        "the energy norm of the error (smoothing_energy_le), on every level of the hierarchy "
+        "(PhysR.reach); for strictly dissipative models (eta < 0) the form is positive definite and "
+        "a sweep of any kernel with solved blocks STRICTLY reduces the energy norm of every "
+        "non-zero error (Props/SmoothStrict.lean: energy_eq_zero, kernelBlocks_cover, "
+        "smoothing_energy_lt) - the smoother alone is a strictly decreasing iteration; both "
+        "observed on the jitted kernels by the suite `energy`. NOT proved, only MEASURED (obligation kind 'measured'; no theorem "
         "stands behind it): the value of that factor and its independence of the grid size - a "
         "quantitative statement of numerical analysis (h-independent spectral radius) that is out of "
         "reach of a machine-checked proof here. The measurement follows the property's own "
